@@ -36,7 +36,7 @@ ASSUMPTIONS = [
     "post-conditions demanded are those stated by the property: stages chain from a read of the source grid to the target chunking, every read/intermediate/write chunk fits max_mem and lies in [1, dim], intermediate = min(read, write), a stage's write chunk lines up with (is a multiple of, or not larger than, or spans) the chunks it writes; 'read chunks are multiples of source chunks' is deliberately not demanded",
     "termination: bounded by MAX_STAGES stage iterations and a wall-clock watchdog (inconclusive if it fires)",
 ]
-NSHARDS = {"quick": 16, "thorough": 32}
+NSHARDS = {"quick": 16, "thorough": 16}
 SIZES = [1, 2, 3, 4, 5, 7, 8, 9, 12, 16, 17, 25, 31, 32, 60, 64, 100, 127, 128, 360, 1000]
 
 EVALS = {"irregular": 0, "regular": 0}
@@ -397,12 +397,12 @@ def finalize(tier, merged):
     return {
         "rule": RULE,
         "floors": [
-            ("planner calls", c.get("planner_calls", 0), 400000 if tier == "quick" else 5000000),
-            ("plans returned and checked by the post-condition", c.get("plans_returned", 0), 250000 if tier == "quick" else 3000000),
-            ("multi-stage plans", c.get("multi_stage_plans", 0), 10000 if tier == "quick" else 150000),
-            ("icontract post-condition evaluations", c.get("contract_evaluations_irregular", 0) + c.get("contract_evaluations_regular", 0), 250000 if tier == "quick" else 3000000),
-            ("end-to-end rechunks computed", c.get("e2e_rechunks", 0), 400 if tier == "quick" else 8000),
-            ("of which under a Spec with reserved_mem > 0", c.get("e2e_rechunks_with_reserved_mem", 0), 120 if tier == "quick" else 2500),
+            ("planner calls", c.get("planner_calls", 0), 400000 if tier == "quick" else 2500000),
+            ("plans returned and checked by the post-condition", c.get("plans_returned", 0), 250000 if tier == "quick" else 1500000),
+            ("multi-stage plans", c.get("multi_stage_plans", 0), 10000 if tier == "quick" else 75000),
+            ("icontract post-condition evaluations", c.get("contract_evaluations_irregular", 0) + c.get("contract_evaluations_regular", 0), 250000 if tier == "quick" else 1500000),
+            ("end-to-end rechunks computed", c.get("e2e_rechunks", 0), 400 if tier == "quick" else 4000),
+            ("of which under a Spec with reserved_mem > 0", c.get("e2e_rechunks_with_reserved_mem", 0), 120 if tier == "quick" else 1250),
         ],
         "coverage_extra": {"bounded_exhaustive_part": "all 1-D geometries with dim <= 8 and all 2-D geometries with dims <= 4 (source x target chunks), itemsize {1,8}, six memory settings, both planners"},
         "assumptions": ASSUMPTIONS,
